@@ -108,6 +108,9 @@ def families(tier):
         # two claims racing to create the same consumer
         make_family('new-claim(c7)+new-claim(c7)', [claim(1, 7, gen='null'),
                                                     claim(2, 7, gen='null')]),
+        # two guarded updates that ask for the same thing
+        make_family('put_aggs+put_aggs(same list)',
+                    [c05.put_aggs(1), c05.put_aggs(2)]),
         # retries exhausted by one competing provider write
         make_family('claim+put_traits/retry=1',
                     [claim(1, 1), c05.put_traits(2)], retry_count=1),
